@@ -1,7 +1,400 @@
-//! C19 — not implemented yet.
+//! C19 — CRAM indexing and region queries return exactly the scan-filtered records.
+//!
+//! (i) `cram::fs::index(path)` = expected index, built from the independent container walker
+//!     (container offset, landmark, slice size) joined with the generator's ground truth
+//!     (reference, min start, span per reference of each slice).
+//! (ii) `Reader::query(header, EXPECTED index, region)` = ground truth filtered by reference and
+//!     interval, each record once, in file order. The query is evaluated with the index the harness
+//!     built, so that a defect in (i) cannot hide (ii).
 
 use crate::engine::*;
+use crate::oracle::cram_walk as walk;
+use crate::r#gen::cram::{self as g, CramDoc, FlatRec};
+use noodles_core::{Position, Region};
+use noodles_cram as cram;
+use proptest::prelude::*;
+use serde::{Deserialize, Serialize};
+
+#[derive(Clone, Debug, Serialize, Deserialize)]
+pub enum RegionSpec {
+    /// the whole reference (unbounded interval)
+    Whole(u8),
+    /// derived from the span [s, e] of the record picked by the selector; kind:
+    /// 0 [s,e] · 1 [e,e] · 2 [e+1,e+1] · 3 [s−1,s−1] · 4 [s,s] · 5 [..=s−1] · 6 [e+1..] · 7 [..=s] · 8 [e..]
+    Edge { rec: u16, kind: u8 },
+    /// [a, a+len−1] on the reference (a wraps into the reference)
+    Span { r: u8, a: u32, len: u32 },
+    From { r: u8, a: u32 },
+    To { r: u8, b: u32 },
+    /// starts beyond the end of the reference
+    Beyond { r: u8, by: u32 },
+}
+
+#[derive(Clone, Debug, Serialize, Deserialize)]
+pub struct Case {
+    pub doc: CramDoc,
+    pub regions: Vec<RegionSpec>,
+}
+
+fn region_strategy() -> BoxedStrategy<RegionSpec> {
+    prop_oneof![
+        2 => (0u8..3).prop_map(RegionSpec::Whole),
+        8 => (any::<u16>(), 0u8..9).prop_map(|(rec, kind)| RegionSpec::Edge { rec, kind }),
+        3 => (0u8..3, 1u32..320, 1u32..60).prop_map(|(r, a, len)| RegionSpec::Span { r, a, len }),
+        1 => (0u8..3, 1u32..320).prop_map(|(r, a)| RegionSpec::From { r, a }),
+        1 => (0u8..3, 1u32..320).prop_map(|(r, b)| RegionSpec::To { r, b }),
+        1 => (0u8..3, 1u32..50).prop_map(|(r, by)| RegionSpec::Beyond { r, by }),
+    ]
+    .boxed()
+}
+
+fn strategy(_tier: Tier) -> BoxedStrategy<Case> {
+    let p = g::Params { sorted_only: true, encoders: false, max_templates: 14, ..g::Params::safe() };
+    // multi-reference slices (two references, or placed and unplaced reads, in one slice) are where
+    // the pinned tree's indexer panics; half of the documents cannot have one, so that the
+    // single-reference logic stays under test
+    let docs = prop_oneof![
+        5 => g::doc_strategy(g::Params { max_refs: 1, unmapped: false, ..p.clone() }),
+        2 => g::doc_strategy(g::Params { max_refs: 1, ..p.clone() }),
+        3 => g::doc_strategy(p.clone()),
+    ];
+    let doc = docs.prop_flat_map(|d| {
+        // small slices dominate, so that single-reference, multi-reference and unmapped slices and
+        // several containers occur; the default 10 240 stays in as the one-container case
+        (Just(d), prop::sample::select(vec![1u16, 2, 2, 3, 3, 5, 7, 0])).prop_map(|(mut d, rps)| {
+            d.opts.records_per_slice = rps;
+            d
+        })
+    });
+    (doc, prop::collection::vec(region_strategy(), 1..10)).prop_map(|(doc, regions)| Case { doc, regions }).boxed()
+}
+
+/// (reference index, start, end) with `None` = unbounded
+type Resolved = (usize, Option<usize>, Option<usize>);
+
+fn resolve(doc: &CramDoc, flat: &[FlatRec], spec: &RegionSpec) -> Option<Resolved> {
+    let nref = doc.refs.len();
+    if nref == 0 {
+        return None;
+    }
+    let ri = |r: u8| (r as usize).min(nref - 1);
+    let rlen = |r: usize| doc.refs[r].seq.len();
+    Some(match spec {
+        RegionSpec::Whole(r) => (ri(*r), None, None),
+        RegionSpec::Edge { rec, kind } => {
+            let placed: Vec<&FlatRec> = flat.iter().filter(|x| x.ref_id.is_some() && x.start.is_some()).collect();
+            if placed.is_empty() {
+                return Some((0, Some(1), Some(1)));
+            }
+            let x = placed[pick_idx(*rec, placed.len())];
+            let (r, s, e) = (x.ref_id.unwrap(), x.start.unwrap(), x.end().unwrap());
+            match kind {
+                0 => (r, Some(s), Some(e)),
+                1 => (r, Some(e), Some(e)),
+                2 => (r, Some(e + 1), Some(e + 1)),
+                3 => {
+                    if s > 1 {
+                        (r, Some(s - 1), Some(s - 1))
+                    } else {
+                        (r, Some(s), Some(s))
+                    }
+                }
+                4 => (r, Some(s), Some(s)),
+                5 => {
+                    if s > 1 {
+                        (r, None, Some(s - 1))
+                    } else {
+                        (r, None, Some(s))
+                    }
+                }
+                6 => (r, Some(e + 1), None),
+                7 => (r, None, Some(s)),
+                _ => (r, Some(e), None),
+            }
+        }
+        RegionSpec::Span { r, a, len } => {
+            let r = ri(*r);
+            let a = g::wrap_pos(*a, rlen(r));
+            (r, Some(a), Some(a + (*len as usize).max(1) - 1))
+        }
+        RegionSpec::From { r, a } => {
+            let r = ri(*r);
+            (r, Some(g::wrap_pos(*a, rlen(r))), None)
+        }
+        RegionSpec::To { r, b } => {
+            let r = ri(*r);
+            (r, None, Some(g::wrap_pos(*b, rlen(r))))
+        }
+        RegionSpec::Beyond { r, by } => {
+            let r = ri(*r);
+            let a = rlen(r) + *by as usize;
+            (r, Some(a), Some(a + 5))
+        }
+    })
+}
+
+fn to_region(doc: &CramDoc, r: &Resolved) -> Option<Region> {
+    let name = doc.refs[r.0].name.clone();
+    let p = |x: usize| Position::new(x);
+    Some(match (r.1, r.2) {
+        (None, None) => Region::new(name, ..),
+        (Some(a), None) => Region::new(name, p(a)?..),
+        (None, Some(b)) => Region::new(name, ..=p(b)?),
+        (Some(a), Some(b)) => Region::new(name, p(a)?..=p(b)?),
+    })
+}
+
+/// What identifies a record in a query answer: everything CRAM keeps except the parts that depend
+/// on mate resolution and name preservation (those are C07's subject).
+fn ident(c: &g::Canon) -> String {
+    let mut c = c.clone();
+    c.name = None;
+    c.mate_ref_id = None;
+    c.mate_start = None;
+    c.tlen = 0;
+    c.flags &= !(0x20 | 0x8);
+    g::canonical_text(&c)
+}
+
+#[derive(Clone, Debug, PartialEq, Eq, PartialOrd, Ord)]
+struct Entry {
+    offset: u64,
+    landmark: u64,
+    slice_length: u64,
+    ref_id: Option<usize>,
+    start: Option<usize>,
+    span: usize,
+}
+
+fn entry_of(r: &cram::crai::Record) -> Entry {
+    Entry { offset: r.offset(), landmark: r.landmark(), slice_length: r.slice_length(), ref_id: r.reference_sequence_id(), start: r.alignment_start().map(usize::from), span: r.alignment_span() }
+}
+
+fn record_of(e: &Entry) -> cram::crai::Record {
+    cram::crai::Record::new(e.ref_id, e.start.and_then(Position::new), e.span, e.offset, e.landmark, e.slice_length)
+}
+
+struct Expected {
+    /// entries every correct index holds, in file order (per slice: by reference id)
+    required: Vec<Entry>,
+    /// the "no reference" entry of a multi-reference slice that also holds unplaced reads — a
+    /// correct index may or may not list it (the CRAI description does not say)
+    optional: Vec<Entry>,
+    multi_ref: bool,
+    unmapped_slice: bool,
+    n_slices: usize,
+    n_containers: usize,
+}
+
+fn expected_index(flat: &[FlatRec], f: &walk::CramFile) -> Result<Expected, String> {
+    let mut ex = Expected { required: Vec::new(), optional: Vec::new(), multi_ref: false, unmapped_slice: false, n_slices: 0, n_containers: 0 };
+    let mut next = 0usize;
+    for c in f.data_containers() {
+        ex.n_containers += 1;
+        for s in &c.slices {
+            ex.n_slices += 1;
+            let h = s.header.as_ref().map_err(|e| format!("slice header: {e}"))?;
+            let n = h.n_records.max(0) as usize;
+            if next + n > flat.len() {
+                return Err(format!("slices declare more records than the {} written", flat.len()));
+            }
+            let recs = &flat[next..next + n];
+            next += n;
+            let base = |ref_id, start, span| Entry { offset: c.offset as u64, landmark: s.offset_in_container as u64, slice_length: s.size as u64, ref_id, start, span };
+            let mut refs: Vec<Option<usize>> = recs.iter().map(|r| r.ref_id).collect();
+            refs.sort();
+            refs.dedup();
+            let multi = refs.len() > 1;
+            ex.multi_ref |= multi;
+            ex.unmapped_slice |= refs == [None];
+            // real references in ascending order, the "no reference" entry last
+            refs.sort_by_key(|r| r.map(|x| x as i64).unwrap_or(i64::MAX));
+            for rid in refs {
+                match rid {
+                    Some(id) => {
+                        let on: Vec<&FlatRec> = recs.iter().filter(|r| r.ref_id == Some(id)).collect();
+                        let start = on.iter().filter_map(|r| r.start).min().ok_or("placed record without a start")?;
+                        let end = on.iter().filter_map(|r| r.end()).max().unwrap_or(start);
+                        ex.required.push(base(Some(id), Some(start), end - start + 1));
+                    }
+                    None => {
+                        if multi {
+                            ex.optional.push(base(None, None, 0));
+                        } else {
+                            ex.required.push(base(None, None, 0));
+                        }
+                    }
+                }
+            }
+        }
+    }
+    if next != flat.len() {
+        return Err(format!("slices declare {next} records, {} were written", flat.len()));
+    }
+    Ok(ex)
+}
+
+fn check(c: &Case) -> Verdict {
+    let doc = &c.doc;
+    let n = doc.to_noodles();
+    let flat = &n.flat;
+    let mut fails = Fails::new();
+
+    let bytes = match panics::catch(|| g::write_noodles(doc, &n)) {
+        Ok(Ok(b)) => b,
+        Ok(Err(e)) => return fail1("c19.write-error", format!("the writer rejected a document of the safe domain: {e}")),
+        Err(p) => return fail1(format!("c19.write-{}", p.sig()), p.describe()),
+    };
+    let f = walk::walk(&bytes).map_err(|e| vec![Fail::new("c19.layout", format!("the written file does not parse (see C07): {e}"))])?;
+    let ex = expected_index(flat, &f).map_err(|e| vec![Fail::new("c19.layout", format!("the written file's slices do not partition the records (see C07): {e}"))])?;
+    let ctx = if ex.multi_ref { "multi-ref-slice" } else { "single-ref-slices" };
+
+    // ---- (i) the index -------------------------------------------------------------------------
+    let path = env().tmp_dir.join(format!("c19-{:016x}-{}.cram", key_of(c), std::process::id()));
+    if let Err(e) = std::fs::write(&path, &bytes) {
+        return fail1(shard::HARNESS_PANIC, format!("cannot write the scratch file {}: {e}", path.display()));
+    }
+    let indexed = panics::catch(|| cram::fs::index(&path));
+    let _ = std::fs::remove_file(&path);
+    match indexed {
+        Err(p) => fails.push(format!("c19.index-panic@{ctx}:{}", p.sig()), p.describe()),
+        Ok(Err(e)) => fails.push(format!("c19.index-error@{ctx}"), format!("cram::fs::index failed: {e}")),
+        Ok(Ok(index)) => {
+            let got: Vec<Entry> = index.iter().map(entry_of).collect();
+            // every required entry present exactly once; anything else must be an optional entry
+            let mut rest = got.clone();
+            for e in &ex.required {
+                match rest.iter().position(|x| x == e) {
+                    Some(i) => {
+                        rest.remove(i);
+                    }
+                    None => {
+                        let near: Vec<&Entry> = got.iter().filter(|x| x.offset == e.offset && x.landmark == e.landmark).collect();
+                        let what = if near.iter().any(|x| x.ref_id == e.ref_id && (x.start != e.start || x.span != e.span) && x.slice_length == e.slice_length) {
+                            "span"
+                        } else if near.iter().any(|x| x.ref_id == e.ref_id && x.slice_length != e.slice_length) {
+                            "slice-length"
+                        } else {
+                            "entry"
+                        };
+                        fails.push(format!("c19.index.{what}@{ctx}"), format!("expected entry {e:?} is not in the index; entries of that slice: {near:?}"));
+                    }
+                }
+            }
+            for x in &rest {
+                if let Some(i) = ex.optional.iter().position(|o| o == x) {
+                    let _ = i;
+                } else {
+                    fails.push(format!("c19.index.extra@{ctx}"), format!("the index holds {x:?}, which no slice accounts for (expected {:?})", ex.required));
+                }
+            }
+            // slices appear in file order
+            let order: Vec<(u64, u64)> = got.iter().map(|x| (x.offset, x.landmark)).collect();
+            if order.windows(2).any(|w| w[0] > w[1]) {
+                fails.push(format!("c19.index.order@{ctx}"), format!("index entries are not in file order: {order:?}"));
+            }
+        }
+    }
+
+    // ---- (ii) queries through the expected index ------------------------------------------------
+    let mut index_entries = ex.required.clone();
+    index_entries.extend(ex.optional.iter().cloned());
+    index_entries.sort_by_key(|e| (e.offset, e.landmark, e.ref_id.map(|x| x as i64).unwrap_or(i64::MAX)));
+    let index: cram::crai::Index = index_entries.iter().map(record_of).collect();
+    let truth: Vec<(usize, String)> = flat.iter().enumerate().map(|(i, r)| (i, ident(&g::canon_of_flat(r)))).collect();
+    let mut nonempty = 0usize;
+    let mut empty = 0usize;
+    let mut evals = 0u64;
+    let mut leak_possible = false;
+    for spec in &c.regions {
+        let Some(res) = resolve(doc, flat, spec) else { continue };
+        let Some(region) = to_region(doc, &res) else { continue };
+        evals += 1;
+        let (lo, hi) = (res.1.unwrap_or(1), res.2.unwrap_or(usize::MAX));
+        let hits = |r: &FlatRec| match (r.start, r.end()) {
+            (Some(s), Some(e)) => s <= hi && e >= lo,
+            _ => false,
+        };
+        let want: Vec<&String> = flat.iter().zip(truth.iter()).filter(|(r, _)| r.ref_id == Some(res.0) && hits(r)).map(|(_, t)| &t.1).collect();
+        let want_any_ref: Vec<&String> = flat.iter().zip(truth.iter()).filter(|(r, _)| r.ref_id.is_some() && hits(r)).map(|(_, t)| &t.1).collect();
+        leak_possible |= want_any_ref.len() != want.len();
+        if want.is_empty() {
+            empty += 1;
+        } else {
+            nonempty += 1;
+        }
+        let answer = panics::catch(|| -> std::io::Result<Vec<noodles_sam::alignment::RecordBuf>> {
+            let mut reader = cram::io::reader::Builder::default().set_reference_sequence_repository(n.repository.clone()).build_from_reader(std::io::Cursor::new(&bytes[..]));
+            let header = reader.read_header()?;
+            let q = reader.query(&header, &index, &region)?;
+            q.records().collect()
+        });
+        let what = format!("query {}:{}-{}", doc.refs[res.0].name, res.1.map(|x| x.to_string()).unwrap_or_default(), res.2.map(|x| x.to_string()).unwrap_or_default());
+        match answer {
+            Err(p) => fails.push(format!("c19.query-panic@{ctx}:{}", p.sig()), format!("{what}: {}", p.describe())),
+            Ok(Err(e)) => fails.push(format!("c19.query-error@{ctx}"), format!("{what}: {e}")),
+            Ok(Ok(recs)) => {
+                let got: Vec<String> = recs.iter().map(|r| ident(&g::canon_of_record(r))).collect();
+                let got_refs: Vec<&String> = got.iter().collect();
+                if got_refs != want {
+                    // classify: does the answer equal the records of *any* reference that
+                    // intersect the interval (the reference id is ignored)?
+                    let on_ref: Vec<&String> = recs.iter().zip(got.iter()).filter(|(r, _)| r.reference_sequence_id() == Some(res.0)).map(|(_, t)| t).collect();
+                    let sig = if on_ref == want && got_refs.len() > want.len() {
+                        format!("c19.query.other-reference-leak@{ctx}")
+                    } else if got_refs.len() < want.len() {
+                        format!("c19.query.missing@{ctx}")
+                    } else if got_refs.len() > want.len() {
+                        format!("c19.query.extra@{ctx}")
+                    } else {
+                        format!("c19.query.different@{ctx}")
+                    };
+                    fails.push(sig, format!("{what}: got {} records, want {}\n got  {}\n want {}", got.len(), want.len(), trunc(&format!("{got:?}"), 700), trunc(&format!("{want:?}"), 700)));
+                }
+            }
+        }
+    }
+
+    let nontrivial = nonempty > 0 && ex.n_slices >= 2;
+    let pass = Pass::new(nontrivial, key_of(c))
+        .evals(evals.max(1))
+        .label_if(ex.multi_ref, "multi-ref-slice")
+        .label_if(ex.unmapped_slice, "unmapped-slice")
+        .label_if(ex.n_containers >= 2, "containers>=2")
+        .label_if(ex.n_containers >= 5, "containers>=5")
+        .label_if(ex.n_slices == 1, "one-slice")
+        .label_if(nonempty > 0, "region-with-hits")
+        .label_if(empty > 0, "region-without-hits")
+        .label_if(leak_possible, "other-reference-also-intersects")
+        .label_if(doc.refs.len() >= 2, "refs>=2")
+        .label_if(flat.is_empty(), "no-records")
+        .label_if(c.regions.iter().any(|r| matches!(r, RegionSpec::Whole(_) | RegionSpec::From { .. } | RegionSpec::To { .. } | RegionSpec::Edge { kind: 5..=8, .. })), "unbounded-interval")
+        .label_if(c.regions.iter().any(|r| matches!(r, RegionSpec::Edge { kind: 1..=4, .. })), "edge-point-query");
+    fails.finish(pass)
+}
 
 pub fn property() -> Property {
-    Property { id: "C19", level: "exploration", rule: "", assumptions: vec![], subs: vec![], max_parallel: 16 }
+    Property {
+        id: "C19",
+        level: "exploration",
+        rule: "coordinate-sorted record streams over 1–3 references (edits, pairs, secondary lines, unplaced unmapped tail) from the safe G-cram domain × records-per-slice ∈ {1,2,3,5,7,default} × region batteries (whole reference, intervals at the edges of a picked record's span, random spans, unbounded bounds, beyond the reference end)",
+        assumptions: vec![
+            "the expected index comes from oracle::cram_walk (container offset, landmark, slice size) and the generator's ground truth (reference, min start, max end per reference and slice); C07 checks that walker against the same files".into(),
+            "record identity in query answers = flags (without the mate bits), reference, start, MAPQ, CIGAR, bases, qualities, aux fields — names, mate fields and TLEN are C07's subject".into(),
+            "the 'no reference' entry of a multi-reference slice that also holds unplaced reads is accepted present or absent".into(),
+            "placed unmapped reads are outside the domain (the reference span of such a read is not defined by the specification)".into(),
+        ],
+        subs: vec![
+            sub(
+                "index_and_query",
+                "non-trivial = ≥2 slices and at least one region with a non-empty expected answer; distinct by hash of (document, regions); one evaluation per region",
+                strategy,
+                check,
+                16_000,
+                400_000,
+            )
+            .boxed(),
+        ],
+        max_parallel: 16,
+    }
 }
